@@ -400,6 +400,127 @@ def c18(d, run):
     run.assumptions = BASE_ASSUME
 
 
+def c15(d, run):
+    wd = run.workdir
+    for cfg, name in (("MC_Ring_b0q3.cfg", "buffer_items 0, queue 3"), ("MC_Ring_b1q3.cfg", "buffer_items 1, queue 3"),
+                      ("MC_Ring_b2q1.cfg", "buffer_items 2, queue 1"), ("MC_Ring_b2q3.cfg", "buffer_items 2, queue 3"),
+                      ("MC_Ring_b3q0.cfg", "buffer_items 3, unbounded queue (async)")):
+        r = d.tlc_mc("MC_Ring.tla", cfg, wd, workers=6)
+        run.add_mc(r, "MC_Ring (%s; 2 keys; <= 9 lookups / worker steps / clear / close)" % name)
+        if r["violated"]:
+            run.violation("specification Ring.tla violates %s in %s" % (r["violated"], cfg), replay_lines=[r["out"][-6000:]])
+    run.exhaustive = True
+    hist = {}
+    for (prof, flavor, nq, nt) in [("ring", "sync", 30, 250), ("ring", "async", 15, 120), ("ring_close", "sync", 15, 100), ("cfg", "sync", 20, 140)]:
+        n = nt if _thorough(run) else nq
+        trace = os.path.join(wd, "ring-%s-%s.ndjson" % (prof, flavor))
+        info = d.vh(["cache", "--profile", prof, "--flavor", flavor, "--n", n, "--seed", run.seed, "--out", trace], timeout=1800)
+        for k, v in info.get("hist", {}).items():
+            hist[k] = hist.get(k, 0) + v
+        files = d.split_trace(trace, os.path.join(wd, "chunks-%s-%s" % (prof, flavor)), start_events=("Init",), max_lines=1500)
+        res = d.validate_chunks("Ring_Trace.tla", "Ring_Trace.cfg", files, wd, par=8, start_events=("Init",))
+        d.report_trace_results(run, res, "real lookup recording deviates from Ring.tla [profile %s, %s]" % (prof, flavor))
+        run.traces += n
+        run.evaluations += info.get("events", 0)
+        if not run.samples:
+            run.samples = [{k: v for k, v in s.items() if k != "post"} if isinstance(s, dict) else s
+                           for s in d.sample_lines(trace, 3, lambda j: j.get("ev") in ("Get", "LRecv"))]
+    _need(d, hist, ["Get", "GetMut", "LRecv", "ClsPolFlag"])
+    run.notes["event_histogram"] = hist
+    run.nontrivial = hist.get("Get", 0) + hist.get("GetMut", 0) + hist.get("LRecv", 0)
+    run.rule = ("non-trivial = lookups (hit or miss) and policy-worker steps; after each one the pending batch length, the policy "
+                "queue length and gets_kept / gets_dropped of the implementation must equal Ring.tla's, and after a worker step the "
+                "estimate of every key must reflect the lookups applied so far (no aging reset possible yet); buffer_items 0,1,2,3,5,64; "
+                "both flavours (bounded-3 and unbounded queue); policy worker stepped at arbitrary points; closes included")
+    run.assumptions = BASE_ASSUME + ["the upper side of 'reflects' (no over-count beyond sketch collisions) is C13's; here the lower bound"]
+
+
+def _projection(path):
+    """observable projection of a sequential trace: completed public calls with result, callbacks, and store/charges/metrics"""
+    out = []
+    with open(path) as f:
+        for line in f:
+            j = json.loads(line)
+            ev = j.get("ev")
+            if ev == "Init":
+                out.append(("Init", j.get("max"), j.get("bufcap")))
+                continue
+            o = j.get("out", {})
+            if o.get("t") in (None, "pending") and ev != "End":
+                if j.get("cbs"):
+                    out.append(("cb", json.dumps(j["cbs"], sort_keys=True)))
+                continue
+            p = j.get("post", {})
+            met = {k: v for k, v in p.get("met", {}).items()}
+            out.append((("End" if ev == "End" else "call"), json.dumps(o, sort_keys=True), json.dumps(j.get("cbs"), sort_keys=True),
+                        json.dumps(p.get("store"), sort_keys=True), json.dumps(p.get("costs")), p.get("used"), json.dumps(met, sort_keys=True),
+                        json.dumps(j.get("vttl"))))
+    return out
+
+
+def c19(d, run):
+    h = cache_stage(d, run, "real AsyncCache deviates from Cache.tla",
+                    ["async", "seq"],
+                    [("seq", "async", 8, 120), ("conc", "async", 15, 200), ("conc_clear", "async", 10, 120), ("life", "async", 15, 200),
+                     ("ttl", "async", 6, 80), ("evict", "async", 10, 120), ("ttl_conc", "async", 6, 80)],
+                    ALL_CMP, ALL_INV)
+    _need(d, h, ["RemSendA", "RemRet", "PStop", "LStop", "ClsStopSend", "PCleanupKey", "PVictim"])
+    # same sequential histories on both flavours: observable results must be identical
+    pairs = 0
+    for prof in ("seq", "seq_internal", "ttl", "below_ttl", "seq_veto"):
+        n = 40 if _thorough(run) else 5
+        ts = os.path.join(run.workdir, "eq-%s-sync.ndjson" % prof)
+        ta = os.path.join(run.workdir, "eq-%s-async.ndjson" % prof)
+        d.vh(["cache", "--profile", prof, "--flavor", "sync", "--n", n, "--seed", run.seed + 17, "--out", ts])
+        d.vh(["cache", "--profile", prof, "--flavor", "async", "--n", n, "--seed", run.seed + 17, "--out", ta])
+        ps, pa = _projection(ts), _projection(ta)
+        pairs += n
+        if ps != pa:
+            k = next((i for i in range(min(len(ps), len(pa))) if ps[i] != pa[i]), min(len(ps), len(pa)))
+            run.violation("Cache and AsyncCache differ on the same sequential history (profile %s) at observable step %d: sync=%s async=%s"
+                          % (prof, k, str(ps[k] if k < len(ps) else None)[:300], str(pa[k] if k < len(pa) else None)[:300]),
+                          replay_lines=open(ta).readlines()[:400], meta={"sync_trace": ts})
+        cfg = _trace_cfg(run, "eq", ALL_CMP, ALL_INV)
+        for tr in (ts, ta):
+            files = d.split_trace(tr, tr + ".chunks", start_events=("Init",), max_lines=1500)
+            res = d.validate_chunks("Cache_Trace.tla", cfg, files, run.workdir, par=8, start_events=("Init",))
+            d.report_trace_results(run, res, "real cache deviates from Cache.tla [equivalence run %s]" % prof)
+        run.traces += 2 * n
+    run.notes["sync_async_history_pairs_compared"] = pairs
+    run.nontrivial = h.get("RemSendA", 0) + h.get("PStop", 0) + pairs
+    run.rule = ("(1) every profile used for the synchronous cache re-run on AsyncCache (parked async processors stepped through the "
+                "same handlers the tasks call) and validated against the same specification with Flavor = async; (2) identical "
+                "seeded sequential histories executed on both flavours: results, callbacks, resident entries, charges, metrics and "
+                "remaining TTLs compared step by step")
+    run.assumptions = BASE_ASSUME + ["executor/spawner and polling order: the async processors are parked and stepped by the harness, so the "
+                                     "executor's scheduling is replaced by the schedule; free-running executors are covered only through "
+                                     "the repository's own async tests"]
+    _known(d, run, "D7")
+
+
+def c20(d, run):
+    mc = d.tlc_mc("MC_Config.tla", "MC_Config.cfg", run.workdir, workers=2)
+    run.add_mc(mc, "MC_Config (num_counters 0..70 x max_cost {-5,0,1,2,100} x buffer {0,1,2}: validation rule and well-formed dimensions)")
+    if mc["violated"]:
+        run.violation("Config.tla violates %s" % mc["violated"], replay_lines=[mc["out"][-4000:]])
+    r = d.tlc_mc("MC_Sketch.tla", "MC_Sketch.cfg", run.workdir, workers=8)
+    run.add_mc(r, "MC_Sketch (num_counters 1,2,3,4,5,8)")
+    if r["violated"]:
+        run.violation("Sketch.tla violates %s" % r["violated"], replay_lines=[r["out"][-4000:]])
+    h = cache_stage(d, run, "a cache built from an accepted configuration deviates from Cache.tla / panics",
+                    [],
+                    [("cfg", "sync", 70, 560), ("cfg", "async", 35, 280)],
+                    ALL_CMP, ALL_INV)
+    _need(d, h, ["Finalize", "LRecv", "PVictim", "PCleanupKey", "Get"])
+    run.nontrivial = h.get("Init", 0)
+    run.rule = ("one instance per configuration: num_counters 1..70 in turn (quick: once each for sync, every second one for async), "
+                "max_cost 1..8, buffer size 1..2, buffer_items {0,1,2,64}; each runs inserts, lookups past buffer_items (batches flush and "
+                "the policy worker applies them to the small estimator), removes, TTL expiry with ticks and over-capacity inserts; a panic "
+                "in any actor is recorded as an event the specification does not have; rejected parameter combinations must return the "
+                "specified error kind")
+    run.assumptions = BASE_ASSUME + ["negative max_cost is covered by Finalize events and MC_Config only (nothing is ever admitted)"]
+
+
 def _known(d, run, tag):
     for f in d.known_findings().get("findings", []):
         if f.get("id") == tag and run.pid in f.get("properties", []):
@@ -411,6 +532,9 @@ def _known(d, run, tag):
 CHECKS = {
     "C01": c01,
     "C04": c04,
+    "C15": c15,
+    "C19": c19,
+    "C20": c20,
     "C03": c03,
     "C05": c05,
     "C09": c09,
